@@ -291,6 +291,18 @@ class WSStream:
                 return
             self.connection.receive_data(event.data)
             await self._handle_events()
+        elif isinstance(event, EndBody):
+            if (
+                self.handshake.accepted
+                and self.handshake.http_version != "1.1"
+                and not self.closed
+                and self.connection.state in {ConnectionState.OPEN, ConnectionState.LOCAL_CLOSING}
+            ):
+                # The client has ended its side of the stream without a
+                # close frame, the FIN of a WebSocket over HTTP/2 (RFC
+                # 8441 section 5). As with a HTTP/1.1 connection that
+                # ends the WebSocket is lost, and the app to be told.
+                await self.send(StreamClosed(stream_id=self.stream_id))
         elif isinstance(event, StreamClosed):
             self.closed = True
             if not self.sending_ping:
